@@ -3,11 +3,11 @@ import reghist as rh
 from reghist import D, C, S, M, R
 
 PARTIAL = [
-    "reading PIL text (read_pil) and the release of a whole reader result after one gc pass are not part of the histories yet",
-    "the theorems are about the abstract heap graph of the model; that CPython frees at reference count zero, that "
-    "WeakValueDictionary callbacks fire and that no C-level or traceback reference survives is observed (weakref "
-    "liveness after every step, gc disabled), not proved",
-    "holding a caught error across later operations is exercised by the direct oracle only (the model has no exception roots)",
+    'reading PIL text (read_pil) and the release of a whole reader result after one gc pass are not part of the histories yet',
+    'the theorems are about the abstract heap graph of the model; that CPython frees at reference count zero, that WeakValueDictionary callbacks fire and that no C-level or traceback reference survives is observed (weakref liveness after every step, gc disabled), not proved',
+    'holding a caught error across later operations is exercised by the direct oracle only (the model has no exception roots)',
+    'release_redefine_full (Proofs/RegExamples.v): drop of the last reference followed by a redefinition with other parameters as one statement about operations; proved: C05_release, C05_redefine_after_release, Example ex_release',
+    'split() is exercised on the implementation by the oracle (results dropped, liveness re-checked); the model has no Split operation',
 ]
 
 
@@ -22,7 +22,11 @@ def batches(ctx):
          rh.rxn(3, R, [1], [1], "open"), rh.rxn(3, R, [2], [2], "condensed"),
          rh.drop(0), rh.drop(1), rh.drop(2), rh.drop(3),
          rh.query(1, "size"), rh.turns(1, 1), rh.inv(0, 0)]
-    out = [(f"containers/exhaustive-depth-{depth}", rh.all_histories(a, depth), 4, [D, C, S, M, R])]
+    small = [o for o in a if o[0] not in ("query", "turns", "inv", "strand") and o != rh.dom(0, D, "a")]
+    # 13 letters at depth 4 (quick) / 5 (thorough); the thorough tier adds all 18 letters at depth 4
+    out = [(f"containers/exhaustive-depth-{depth}", rh.all_histories(small, depth), 4, [D, C, S, M, R])]
+    if not quick:
+        out.append(("containers/18-letters-depth-4", rh.all_histories(a, 4), 4, [D, C, S, M, R]))
     n, ln = (300, 40) if quick else (5000, 100)
     out.append(("all-classes/random", [rh.random_history(rng, ln) for _ in range(n)], rh.NSLOTS, rh.ALL))
     # drop-heavy random histories
@@ -35,14 +39,38 @@ def batches(ctx):
     return out
 
 
-RULE = ("every history of depth 4 (quick) / 5 (thorough) over an 18-letter alphabet building the containment chain domain -> "
+RULE = ("every history of depth 4 (quick) / 5 (thorough) over 13 letters (thorough also: depth 4 over 18 letters) building the containment chain domain -> "
         "complex/strand -> macrostate -> reaction on four slots with drops in every order, redefinitions with other "
         "parameters, look-ups, a query, turns and ~; random and drop-heavy random histories over all 23 classes; after every "
         "step the weakref liveness of every object ever handed out is compared with the model's liveness flags "
         "(gc disabled: release must be immediate), together with both registries; distinct = distinct final observable states")
 
 
+def reader_release(ctx):
+    """whole read_pil results are released after at most one garbage-collection pass, and the names can
+    be redefined afterwards (runtime behaviour: observed on the implementation)"""
+    import gen_pil
+    from common import run_impl, Err
+    rng = ctx.rng
+    docs = []
+    for _ in range(30 if ctx.tier == "quick" else 400):
+        S = gen_pil.make_system(rng)
+        docs.append(gen_pil.render(S, rng, layout=True, order=gen_pil.shuffled_order(S, rng)))
+    res = run_impl([("read_pil_release", [t]) for t in docs])
+    bad = 0
+    for t, r in zip(docs, res):
+        if isinstance(r, Err) or r[2] or any(r[3]):
+            bad += 1
+            ctx.violation("counterexample", {"key": {"release": t}, "input": t,
+                                             "what": f"objects of a read_pil result survive one gc pass after the dictionary was dropped: {r!r}",
+                                             "snippet": "import gc, weakref; from dsdobjects.objectio import *; set_io_objects(); out = read_pil("
+                                                        + repr(t) + "); refs=[weakref.ref(o) for o in out['complexes'].values()]; del out; gc.collect(); print([r() for r in refs])"})
+    ctx.cov["correspondence"]["read_pil_release(impl)"] = {"documents": len(docs), "not_released": bad,
+                                                           "objects": sum(r[0] for r in res if not isinstance(r, Err))}
+
+
 def run(ctx):
+    reader_release(ctx)
     rh.run_check(ctx, "C05", batches, RULE, partial=PARTIAL)
 
 
